@@ -163,6 +163,17 @@ def replay(W, beh):
     return {'events': events}
 
 
+DIRECTED = [
+    [['sign', 'A', 'd1'], ['verify', 'A', 1, 'd1'], ['verify', 'A', 1, 'd2'], ['verify', 'B', 1, 'd1'], ['ring-verify', 1, 'd1'], ['ring-load', 'A'],
+     ['ring-verify', 1, 'd1'], ['ring-verify', 1, 'd2'], ['ring-load', 'B'], ['ring-unload', 'A'], ['ring-verify', 1, 'd1'], ['ring-load', 'A'], ['ring-verify', 1, 'd1']],
+    [['protect', 'A', 'p1'], ['sign', 'A', 'd1'], ['unlock', 'A', 'p2'], ['sign', 'A', 'd1'], ['unlock', 'A', 'p1'], ['sign', 'A', 'd2'], ['unlock', 'A', 'p1'],
+     ['exit', 'A'], ['sign', 'A', 'd1'], ['exit', 'A'], ['export-import', 'A'], ['sign', 'A', 'd1'], ['verify', 'A', 1, 'd2'], ['protect', 'A', 'p2']],
+    [['encrypt', [1, 1], True, 'd1', 'B'], ['decrypt', 'A', 1], ['decrypt', 'B', 1], ['decrypt-pass', 1, True], ['decrypt-pass', 1, False], ['protect', 'B', 'p2'],
+     ['decrypt', 'B', 1], ['encrypt', [1, 0], False, 'd2', 'B'], ['encrypt', [1, 0], False, 'd2', '-'], ['decrypt', 'B', 2], ['decrypt', 'A', 2], ['decrypt-pass', 2, True],
+     ['unlock', 'B', 'p2'], ['decrypt', 'B', 1], ['encrypt', [0, 1], False, 'd1', 'B'], ['exit', 'B'], ['decrypt', 'B', 3]],
+]
+
+
 def generate(ctx, family):
     """-> list of (behaviour, step index, clause, detail) for rejects of `family` (e.g. 'C06.session')."""
     if family == 'C06.session' or not ctx.quick:
@@ -181,6 +192,8 @@ def generate(ctx, family):
     behs = behs[:n]
     if len(behs) < n // 2:
         raise MachineryError('Gen_Session produced %d behaviours' % len(behs))
+    # directed sessions (validated by Trace_Session like every other walk): every outcome class occurs in every run whatever the seed
+    behs = DIRECTED + behs
     W = K.pooled('session-world', World)
     saved = keylife.fast_s2k()
     try:
